@@ -35,11 +35,34 @@ func richProfile() gen.Profile {
 	p.Strs = append([]string{"a", "b", "file1", "x1", "", "a b", "café", "quote\"d", "back\\slash", "line\nbreak", "x", "y", "0"}, gen.DefaultSymbols...)
 	p.SmallInts = []int64{0, 1, 2, -1, 5, 1 << 40, -(1 << 62), 9223372036854775807, -9223372036854775808}
 	p.Dates = []uint64{0, 1, 1700000000, 1 << 32, 253402300799}
+	p.KeepDups = true // the bytes carry the caller's set as written, repeated elements included
 	return p
 }
 
+// looseKey over-approximates the builders' notion of "the same fact": the library compares two
+// sets by length and one-directional membership, so with repeated elements [0,0,0] equals [0,1,2].
+// Facts that agree everywhere except in sets of the same length are treated as one.
+func looseKey(p m.Pred) string {
+	q := m.Pred{Name: p.Name}
+	for _, t := range p.Terms {
+		if t.K == m.KSet {
+			t = m.Str(fmt.Sprintf("set of %d", len(t.Set)))
+		}
+		q.Terms = append(q.Terms, t)
+	}
+	return q.Key()
+}
+
 func drawRichBlock(t *rapid.T, s gen.Schema) m.Block {
-	b := m.Block{Facts: s.DrawFacts(t, 0, 4)}
+	b := m.Block{}
+	seenFact := map[string]bool{}
+	for _, f := range s.DrawFacts(t, 0, 4) {
+		// builders refuse a fact they already hold
+		if k := looseKey(f); !seenFact[k] {
+			seenFact[k] = true
+			b.Facts = append(b.Facts, f)
+		}
+	}
 	cfg := gen.RuleCfg{MaxBody: 3, MaxExprs: 2, ExprDepth: 4}
 	b.Rules = s.DrawRules(t, 0, 2, cfg)
 	nc := rapid.IntRange(0, 2).Draw(t, "nchecks")
